@@ -340,7 +340,8 @@ def agree_binop(c, io, mo, notes=None):
         t = c["_t"]
         cls_ = lowest(uses_f32(t["a"]), uses_f32(t["b"]))
         limit = Fraction(6 * 10 ** 4) if cls_ == "f16" else Fraction(10) ** (38 if cls_ else 308)
-        if any(abs(qparse(v)) >= limit for v in mo["ok"]["vs"]):
+        # (a weak Python float operand is first cast to the small type, so the operands count as well: M covers both)
+        if any(abs(qparse(v)) >= limit for v in mo["ok"]["vs"]) or abs(qparse(mo["ok"]["M"])) >= limit:
             return None
     if "err" in io or "err" in mo:
         if ("err" in io) != ("err" in mo):
@@ -383,7 +384,7 @@ def exact_floor_case(t):
         return False
     if k["t"] == "nd" and k["dt"] not in ("f64", "i64"):
         return False
-    return objs[0]["t"] == "scalar" or not mixed_units(UnitDatabase.GetSingleton(), objs[0]["q"])
+    return not mixed_units(UnitDatabase.GetSingleton(), objs[0]["q"])
 
 
 
